@@ -501,7 +501,7 @@ class FlagThread(ast.NodeTransformer):
                         changed[0] = True
                         continue
                 # shape 1b: a run of `f_i = <pure condition>` directly before an `if` that reads each of them once
-                if isinstance(a, ast.Assign) and isinstance(b, ast.Assign):
+                if isinstance(a, ast.Assign) and isinstance(b, (ast.Assign, ast.If)):
                     j = i
                     run = []
                     while j < len(blk) and isinstance(blk[j], ast.Assign) and len(blk[j].targets) == 1 and isinstance(blk[j].targets[0], ast.Name) \
@@ -509,11 +509,13 @@ class FlagThread(ast.NodeTransformer):
                         run.append(blk[j])
                         j += 1
                     nxt = blk[j] if j < len(blk) else None
-                    if len(run) >= 2 and isinstance(nxt, ast.If):
+                    if len(run) >= 1 and isinstance(nxt, ast.If):
                         names = [r.targets[0].id for r in run]
                         uses = {nm: [n for n in ast.walk(nxt.test) if isinstance(n, ast.Name) and n.id == nm] for nm in names}
+                        reads_state = any(isinstance(n, (ast.Attribute, ast.Subscript)) for r in run for n in ast.walk(r.value))
+                        test_calls = any(isinstance(n, ast.Call) and not (isinstance(n.func, ast.Name) and n.func.id in _PURE_CALLS) for n in ast.walk(nxt.test))
                         if len(set(names)) == len(names) and all(len(uses[nm]) == 1 and single(nm) and stores.get(nm, 0) == 1 for nm in names) and \
-                                _bool_context(nxt.test, {id(u[0]) for u in uses.values()}):
+                                _bool_context(nxt.test, {id(u[0]) for u in uses.values()}) and not (reads_state and test_calls):
                             for r in run:
                                 nxt.test = _replace(nxt.test, uses[r.targets[0].id][0], r.value)
                             out.append(nxt)
